@@ -275,8 +275,8 @@ def acts (m : M) (c : Nat) : List A → M × List Item
     spec proper is `Dev.none`; the driver uses the switches only to *name* a failure precisely
     (so that a known finding is matched by what exactly went wrong, not by the input's shape). -/
 structure Dev where
-  /-- SOS/PM strings and ignored DCS strings only count as "a control string was open" once they
-      have consumed at least one rune. -/
+  /-- A control string only counts as open once it has consumed at least one rune after its
+      introducer / DCS final (the ST of an empty string is delivered as `ESC \`). -/
   lazyST : Bool := false
   /-- A C0 control executed between the ESC and the `\` drops the suppression. -/
   c0ClearsST : Bool := false
@@ -288,7 +288,7 @@ def stepRuneD (d : Dev) (m : M) (c : Nat) : M × List Item :=
   let (as, t) := trans m.s (.rune c)
   let (m1, out) := acts m c as
   -- E5 bookkeeping: remember whether an ESC arrived inside a control string
-  let inStr := isString m.s && !(d.lazyST && m.fresh && (m.s = .sosPmApcString || m.s = .dcsIgnore))
+  let inStr := isString m.s && !(d.lazyST && m.fresh)
   let after :=
     if c = 0x1B then (inStr || (m.s = .escape && m.afterString))
     else if t = .escape then (m.afterString && !d.c0ClearsST)
@@ -342,13 +342,20 @@ def decode1 : List Nat → Nat × Nat
       | [] => (b0, 1)
     | [] => (b0, 1)
 
-def decodeFuel : Nat → List Nat → List Nat
+/-- Invalid bytes are tagged (`invalidMark + b`) so that a checker can tell a raw byte from the
+    Latin-1 scalar with the same value; `unmark` gives the rune that is to be delivered. -/
+def invalidMark : Nat := 0x1000000
+def unmark (c : Nat) : Nat := if c ≥ invalidMark then c - invalidMark else c
+
+def decodeFuelM : Nat → List Nat → List Nat
   | 0, _ => []
   | _, [] => []
   | fuel + 1, bs =>
     let (c, n) := decode1 bs
-    c :: decodeFuel fuel (bs.drop (max n 1))
+    (if c ≥ 0x80 ∧ n = 1 then invalidMark + c else c) :: decodeFuelM fuel (bs.drop (max n 1))
 
-def decode (bs : List Nat) : List Nat := decodeFuel bs.length bs
+def decodeMarked (bs : List Nat) : List Nat := decodeFuelM bs.length bs
+
+def decode (bs : List Nat) : List Nat := (decodeMarked bs).map unmark
 
 end VaxisModel.Spec.VT500
